@@ -448,3 +448,116 @@ pub fn parse_case(lines: &[String]) -> Option<LedgerCase> {
     let refs: Vec<&str> = names.iter().map(|s| s.as_str()).collect();
     Some(LedgerCase { uni: AffUniverse::new(&refs), init, txs })
 }
+
+// ---------------------------------------------------------------------------------------
+// Family `window` (C02): a loss sale with acquisitions, later sales and splits placed at chosen
+// day offsets around it (…,-31,-30,-29,-1,0 before/after in file order,1,29,30,31,…).
+
+pub const OFFSETS: [i32; 17] = [-45, -31, -30, -29, -15, -2, -1, 0, 0, 1, 2, 15, 29, 30, 31, 32, 60];
+
+fn mk_tx(day: i32, af: &Affiliate, act: TxActionSpecifics) -> Tx {
+    Tx {
+        security: "FOO".to_string(),
+        trade_date: date_from_jd(day),
+        settlement_date: date_from_jd(day),
+        action_specifics: act,
+        memo: String::new(),
+        affiliate: af.clone(),
+        read_index: 0,
+    }
+}
+
+fn buy(sh: Decimal, px: Decimal) -> TxActionSpecifics {
+    TxActionSpecifics::Buy(BuyTxSpecifics {
+        shares: pos(sh),
+        amount_per_share: gez(px),
+        commission: gez(Decimal::ZERO),
+        tx_currency_and_rate: cer("CAD", Decimal::ONE),
+        separate_commission_currency: None,
+    })
+}
+
+fn sell(sh: Decimal, px: Decimal, sfl: Option<SFLInput>) -> TxActionSpecifics {
+    TxActionSpecifics::Sell(SellTxSpecifics {
+        shares: pos(sh),
+        amount_per_share: gez(px),
+        commission: gez(Decimal::ZERO),
+        tx_currency_and_rate: cer("CAD", Decimal::ONE),
+        separate_commission_currency: None,
+        specified_superficial_loss: sfl,
+    })
+}
+
+/// `enum_idx`: Some(k) enumerates systematically (1 sale x 1 buy x offset x buyer kind), None = random.
+pub fn gen_window_case(r: &mut Rng, enum_idx: Option<u64>) -> LedgerCase {
+    let names = ["Default", "Spouse", "Spouse (R)"];
+    let uni = AffUniverse::new(&names);
+    let affs: Vec<Affiliate> = names.iter().map(|n| Affiliate::from_strep(n)).collect();
+    let base = BASE_JD + 1000;
+    // (day, file-order key, tx)
+    let mut rows: Vec<(i32, i32, Tx)> = Vec::new();
+    let seller = affs[0].clone();
+    rows.push((base - 400, 0, mk_tx(base - 400, &seller, buy(Decimal::new(100, 0), Decimal::new(50, 0)))));
+    if let Some(k) = enum_idx {
+        // offsets -33..=33, before/after in file order, three kinds of buyer
+        let off = (k % 67) as i32 - 33;
+        let after_in_file = (k / 67) % 2 == 1;
+        let buyer = &affs[((k / 134) % 3) as usize];
+        let sold = Decimal::new(40, 0);
+        rows.push((base, 10, mk_tx(base, &seller, sell(sold, Decimal::new(30, 0), None))));
+        let key = if after_in_file { 20 } else { 5 };
+        rows.push((base + off, key, mk_tx(base + off, buyer, buy(Decimal::new(10, 0), Decimal::new(31, 0)))));
+    } else {
+        let n_sales = 1 + r.below(3) as i32;
+        let mut day = base;
+        for s in 0..n_sales {
+            let who = if r.chance(75) { seller.clone() } else { affs[1].clone() };
+            let sold = rand_amount(r, 30, 3);
+            let sfl = if r.chance(12) {
+                let v = if r.chance(20) { Decimal::ZERO } else { -rand_amount(r, 300, 2) };
+                Some(SFLInput { superficial_loss: LessEqualZeroDecimal::try_from(v).unwrap(), force: r.chance(50) })
+            } else {
+                None
+            };
+            rows.push((day, 10 + s * 100, mk_tx(day, &who, sell(sold, Decimal::new(r.range(1000, 4500), 2), sfl))));
+            // acquisitions
+            for _ in 0..r.below(4) {
+                let off = *r.pick(&OFFSETS);
+                let buyer = r.pick(&affs).clone();
+                let key = 10 + s * 100 + if r.chance(50) { -5 } else { 5 };
+                rows.push((day + off, key, mk_tx(day + off, &buyer, buy(rand_amount(r, 40, 3), Decimal::new(r.range(2000, 6000), 2)))));
+            }
+            // later / earlier sales by others
+            for _ in 0..r.below(3) {
+                let off = *r.pick(&OFFSETS);
+                let who2 = r.pick(&affs).clone();
+                rows.push((day + off, 10 + s * 100 + 7, mk_tx(day + off, &who2, sell(rand_amount(r, 8, 2), Decimal::new(r.range(2000, 6000), 2), None))));
+            }
+            // splits (per affiliate), forward / reverse / fractional
+            for _ in 0..r.below(3) {
+                let off = *r.pick(&OFFSETS);
+                let forms: [(&str, &str); 6] = [("2", "1"), ("3", "2"), ("1.0", "2.0"), ("1.0", "3.0"), ("7", "3"), ("1.5", "1")];
+                let (post, pre) = *r.pick(&forms);
+                let who3 = r.pick(&affs).clone();
+                let ratio = SplitRatio { pre_split: pos(dec(pre)), post_split: pos(dec(post)), reverse_integer_only: false };
+                rows.push((day + off, 10 + s * 100 + 3, mk_tx(day + off, &who3, TxActionSpecifics::Split(SplitTxSpecifics { ratio }))));
+            }
+            day += *r.pick(&[20, 29, 30, 31, 45, 90]);
+        }
+        // make sure the other affiliates hold something early on
+        rows.push((base - 300, 1, mk_tx(base - 300, &affs[1], buy(Decimal::new(60, 0), Decimal::new(45, 0)))));
+        if r.chance(50) {
+            rows.push((base - 300, 2, mk_tx(base - 300, &affs[2], buy(Decimal::new(25, 0), Decimal::new(45, 0)))));
+        }
+    }
+    rows.sort_by(|a, b| (a.0, a.1).cmp(&(b.0, b.1)));
+    let txs: Vec<Tx> = rows
+        .into_iter()
+        .enumerate()
+        .map(|(i, (_, _, mut t))| {
+            t.read_index = i as u32;
+            t
+        })
+        .collect();
+    LedgerCase { uni, init: None, txs }
+}
